@@ -7,6 +7,7 @@ import (
 	"strings"
 
 	"github.com/Comcast/sheens/core"
+	"github.com/Comcast/sheens/interpreters/noop"
 	"github.com/Comcast/sheens/match"
 	"github.com/Comcast/sheens/verifrt/actlang"
 	"github.com/Comcast/sheens/verifrt/ref/rstep"
@@ -21,7 +22,7 @@ type c13Case struct {
 	Flavor string // plain | guard | throw-aen | throw-aeb
 	Rep    string // go | json | yaml-jsccast | yaml-v2
 	Syntax string // none | json | explicit-none (patternSyntax: "none" written out)
-	Comp   string // once | twice-force | twice-noforce | reload | reload-yaml
+	Comp   string // once | twice-force | twice-noforce | reload | reload-yaml | parse-... | after-permissive
 	Bad    string // "" | unknown-interpreter | unknown-guard-interpreter | unknown-branchtype | unknown-patternsyntax
 	// BadName: the name written where Bad says ("" = cobol / weird / xml).  A name that differs from a known
 	// one only in case or surrounding blanks is either rejected or honoured like the known one - never
@@ -199,6 +200,16 @@ func (cs c13Case) branchTypeNode() string {
 func c13Compile(cs c13Case, spec *core.Spec) (*core.Spec, string, error) {
 	ctx := context.Background()
 	switch cs.Comp {
+	case "after-permissive":
+		// what a tool does that only wants the structure (tools.ReadAndRenderSpecPage): compile with interpreters
+		// that accept every name and do nothing; what that produced must not leak into a later real compilation,
+		// neither of the same object nor of a copy
+		if err := spec.Copy("permissive").Compile(ctx, noop.NewInterpreters(), true); err != nil {
+			return nil, "", fmt.Errorf("permissive Compile of a copy failed: %v", err)
+		}
+		if err := spec.Compile(ctx, noop.NewInterpreters(), true); err != nil {
+			return nil, "", fmt.Errorf("permissive Compile failed: %v", err)
+		}
 	case "parse-then-compile", "parse-reload-compile":
 		// what a tool does that parses the patterns itself before compiling (cmd/spectool), possibly writing
 		// the spec out and reading it back in between
@@ -369,7 +380,7 @@ func C13(c *vh.Ctx) {
 		return
 	}
 	c.Bound("message_sequence_max", maxLen)
-	c.Rule("specs = (first pattern, second pattern) over 12 JSON shapes (map with variable, map constant, array, number, bool, bare string, bare variable, nested, numeric-looking string, keyword-looking string, array in array in map, maps inside nested arrays) x flavour {plain, guarded, throwing action + ActionErrorNode, + ActionErrorBranches}; each rendered as Go structures / JSON / YAML via jsccast / YAML via yaml.v2 x pattern syntax {inline, json text, inline with patternSyntax none written out} x compile variant {once, twice forced, twice unforced, compile-serialise(JSON)-reload-compile, compile-serialise(YAML, yaml.v2)-reload-compile, ParsePatterns-then-compile, ParsePatterns-serialise-reload-compile}; behaviour = full tree of walks over all message sequences up to the bound over 13 messages, compared with the Go-structure/inline/once rendering; plus unknown-interpreter / guard-interpreter / branch-type / pattern-syntax variants per representation - plainly unknown names (cobol, weird, xml, msg, yaml, goja ...) must fail to compile; near misses of the known names (other letter case, surrounding blanks) must either fail to compile or behave exactly like the known name. non-trivial = every case (each is a distinct rendering).")
+	c.Rule("specs = (first pattern, second pattern) over 12 JSON shapes (map with variable, map constant, array, number, bool, bare string, bare variable, nested, numeric-looking string, keyword-looking string, array in array in map, maps inside nested arrays) x flavour {plain, guarded, throwing action + ActionErrorNode, + ActionErrorBranches}; each rendered as Go structures / JSON / YAML via jsccast / YAML via yaml.v2 x pattern syntax {inline, json text, inline with patternSyntax none written out} x compile variant {once, twice forced, twice unforced, compile-serialise(JSON)-reload-compile, compile-serialise(YAML, yaml.v2)-reload-compile, ParsePatterns-then-compile, ParsePatterns-serialise-reload-compile, compile after the spec and a copy were compiled with the do-nothing interpreters that accept every name}; behaviour = full tree of walks over all message sequences up to the bound over 13 messages, compared with the Go-structure/inline/once rendering; plus unknown-interpreter / guard-interpreter / branch-type / pattern-syntax variants per representation - plainly unknown names (cobol, weird, xml, msg, yaml, goja ...) must fail to compile; near misses of the known names (other letter case, surrounding blanks) must either fail to compile or behave exactly like the known name. non-trivial = every case (each is a distinct rendering).")
 	reps := []string{"go", "json", "yaml-jsccast", "yaml-v2"}
 	var idx uint64
 	for p1 := range c13Patterns {
@@ -388,6 +399,9 @@ func C13(c *vh.Ctx) {
 				for _, rep := range reps {
 					for _, syn := range []string{"none", "json", "explicit-none"} {
 						for _, comp := range []string{"once", "twice-force", "twice-noforce", "reload", "reload-yaml", "parse-then-compile", "parse-reload-compile"} {
+							if comp == "once" && syn == "none" && fl != "plain" {
+								one(c13Case{P1: p1, P2: p2, Flavor: fl, Rep: rep, Syntax: syn, Comp: "after-permissive"})
+							}
 							if rep == "go" && syn == "none" && comp == "once" {
 								continue
 							}
@@ -401,6 +415,7 @@ func C13(c *vh.Ctx) {
 					if p1 == 0 && p2 == 1 {
 						for _, bad := range []string{"unknown-interpreter", "unknown-guard-interpreter", "unknown-branchtype", "unknown-patternsyntax"} {
 							one(c13Case{P1: p1, P2: p2, Flavor: fl, Rep: rep, Syntax: "none", Comp: "once", Bad: bad})
+							one(c13Case{P1: p1, P2: p2, Flavor: fl, Rep: rep, Syntax: "none", Comp: "after-permissive", Bad: bad})
 						}
 						// near misses of the known names
 						for _, nm := range []string{"ECMAScript", "Ecmascript", "ecmascript ", " ecmascript", "goja", "js", "ecmascript-EXT"} {
